@@ -61,7 +61,10 @@ def cmp : Obj → Obj → R Int
     if a.length < b.length then pure (-1) else if a.length > b.length then pure 1 else cmpPairs a b
   | .ret a _, .ret b _ => cmp a b
   | .quote _, .quote _ => throw (.unmodelled "Cmp of quotes (ordered by printed form)")
-  | .ref .., .ref .. => throw (.goPanic "Cmp:REFERENCE")
+  -- `Cmp` dereferences both operands at every level (`Value`), so its REFERENCE case is dead code;
+  -- the callers here dereference the top level, references nested in containers are declined
+  | .ref .., _ => throw (.unmodelled "Cmp of a reference nested in a container")
+  | _, .ref .. => throw (.unmodelled "Cmp of a reference nested in a container")
   | a, b => pure (if a.typeNum < b.typeNum then -1 else 1)
 def cmpList : List Obj → List Obj → R Int
   | a :: as, b :: bs => do
@@ -88,23 +91,27 @@ def equals (a b : Obj) : R Bool := do
 def hexNib (n : UInt8) : Char := Grol.Wire.hexDigit n
 
 /-- `strconv.Quote` for ASCII content; bytes ≥ 0x80 are outside the modelled subset -/
+def quoteByte (b : UInt8) : R Bytes :=
+  if b == 34 then pure [92, 34]
+  else if b == 92 then pure [92, 92]
+  else if b == 7 then pure [92, 97]
+  else if b == 8 then pure [92, 98]
+  else if b == 12 then pure [92, 102]
+  else if b == 10 then pure [92, 110]
+  else if b == 13 then pure [92, 114]
+  else if b == 9 then pure [92, 116]
+  else if b == 11 then pure [92, 118]
+  else if b < 32 || b == 127 then
+    pure ([92, 120, (hexNib (b >>> 4)).toNat.toUInt8, (hexNib (b &&& 15)).toNat.toUInt8] : Bytes)
+  else if b < 128 then pure [b]
+  else throw (.unmodelled "Quote of non-ASCII byte")
+
+def quoteBody : Bytes → R Bytes
+  | [] => pure []
+  | b :: rest => do pure ((← quoteByte b) ++ (← quoteBody rest))
+
 def quoteBytes (s : Bytes) : R Bytes := do
-  let mut out : Bytes := [34]
-  for b in s do
-    if b == 34 then out := out ++ [92, 34]
-    else if b == 92 then out := out ++ [92, 92]
-    else if b == 7 then out := out ++ [92, 97]
-    else if b == 8 then out := out ++ [92, 98]
-    else if b == 12 then out := out ++ [92, 102]
-    else if b == 10 then out := out ++ [92, 110]
-    else if b == 13 then out := out ++ [92, 114]
-    else if b == 9 then out := out ++ [92, 116]
-    else if b == 11 then out := out ++ [92, 118]
-    else if b < 32 || b == 127 then
-      out := out ++ ([92, 120, (hexNib (b >>> 4)).toNat.toUInt8, (hexNib (b &&& 15)).toNat.toUInt8] : Bytes)
-    else if b < 128 then out := out ++ [b]
-    else throw (.unmodelled "Quote of non-ASCII byte")
-  pure (out ++ [34])
+  pure ([34] ++ (← quoteBody s) ++ [34])
 
 def int64Str (v : Int64) : String := toString v.toInt
 
@@ -231,14 +238,16 @@ def mapDelete (kvs : List (Obj × Obj)) (key : Obj) : R (Option (List (Obj × Ob
 def newMapBig (cfg : Cfg) (n : Nat) : Bool := n > cfg.maxSmallMap
 
 /-- `Map.Append` (left + right) -/
-def mapAppend (cfg : Cfg) (lbig : Bool) (l : List (Obj × Obj)) (r : List (Obj × Obj)) : R (Bool × List (Obj × Obj)) := do
+def mapAppend (cfg : Cfg) (lbig : Bool) (l : List (Obj × Obj)) (r : List (Obj × Obj)) : R (Bool × List (Obj × Obj)) :=
   -- SmallMap.Append with a small right operand starts from a SmallMap copy and Sets each pair;
   -- every other case builds a fresh BigMap
-  let startBig := lbig || r.length > cfg.maxSmallMap
-  let mut acc : Bool × List (Obj × Obj) := (startBig, l)
-  for (k, v) in r do
-    acc ← mapSet cfg acc.1 acc.2 k v
-  pure acc
+  go (lbig || r.length > cfg.maxSmallMap, l) r
+where
+  go (acc : Bool × List (Obj × Obj)) : List (Obj × Obj) → R (Bool × List (Obj × Obj))
+    | [] => pure acc
+    | (k, v) :: rest => do
+      let acc ← mapSet cfg acc.1 acc.2 k v
+      go acc rest
 
 def keyKey : Obj := .str (toBytes "key")
 def valueKey : Obj := .str (toBytes "value")
